@@ -2,6 +2,9 @@ import NaijaVerif.Lemmas.BridgeSafe
 import NaijaVerif.Lemmas.BridgeReach
 import NaijaVerif.Lemmas.BridgeReachPlan
 import NaijaVerif.Lemmas.BridgeReachNum
+import NaijaVerif.Lemmas.BridgeReachClosed
+import NaijaVerif.Lemmas.ResolveFactsOwn
+import NaijaVerif.Lemmas.ResolveFactsRange
 import NaijaVerif.Lemmas.BridgeSource
 import NaijaVerif.Model.Pipeline
 import NaijaVerif.Props.C06Eval
@@ -58,6 +61,16 @@ evaluator's invariant `MR` holds along every run) and a second walk over the che
   converged (`brClosed`, likewise) — the last two are `FactsCoverCalls`.  `c06_accepted_analysis` and
   `c06_pipeline_reach` are `c06_accepted` / `c06_pipeline` with `FactsCoverCalls` of the front end's
   result in place of the hypothesis on the plan.
+* `FactsCoverCalls` is PROVED of the resolver model's output, for every input program
+  (`resolve_factsCoverCalls`): `brClosed` is a fixpoint fact about the analysis model — `nFns` rounds
+  suffice whenever the recorded callees are function ids (`brClosed_of_calleesInRange`,
+  `brClosed_of_wf`; `Lemmas/BridgeReachClosed.lean`) —, the resolver records function ids only
+  (`resolve_calleesInRange`, `Lemmas/ResolveFactsRange.lean`), and it records the callee of a call in
+  the facts of the statement being checked at the place where it writes the binding
+  (`resolve_ownOk`, `Lemmas/ResolveFactsOwn.lean`).  Hence `c06_accepted_model_plan` and
+  **`c06_pipeline_unconditional`**: a text that the shipped pipeline gets as far as running never
+  panics — the assumptions left are `NumLitsParse N isNumLexeme` (on the number type) and
+  `cfg.panics = false`, `CurrentLookup cfg` (the current code).
 * Lookup: the theorems are for the lookup of the current code (`dynamic`) and for `lexical` (equal runs
   by C04); the whole-stack lookup of the code before the fix of D-04 is not covered.
 -/
@@ -465,6 +478,74 @@ theorem c06_pipeline_reach (hnum : NumLitsParse N isNumLexeme) (caps : Limits.Ca
   · rw [e]; exact ⟨_, keptReach_of_keptBlock (kept_none.2 _)⟩
   · rw [e]; exact ⟨_, analysis_plan_reach _ _ hn h1 h2⟩
 
+/-! ### `FactsCoverCalls` is a theorem about the resolver model -/
+
+/-- **The fixpoint iteration of `bodyReachable` converges**: `nFns` rounds from `[0]` reach a set that
+is closed under the calls of its reachable statements, for every program and all facts whose recorded
+callees are function ids (a round that adds something makes a duplicate-free list of ids below `nFns`
+longer). -/
+theorem brClosed_of_calleesInRange (root : Block) (facts : Facts) (h : calleesInRange facts = true) :
+    (Analysis.mkCtx root facts).brClosed = true := bodyReachable_closed_of_range root facts h
+
+/-- … in particular for facts that pass `Analysis.wf` (what the `plan` driver checks first). -/
+theorem brClosed_of_wf (root : Block) (facts : Facts) (h : Analysis.wf root facts = true) :
+    (Analysis.mkCtx root facts).brClosed = true := bodyReachable_closed root facts h
+
+/-- **The facts of the resolver model name the owner and cover the callees of every statement** of its
+output — for EVERY input program, accepted or not: `check_stmt` pushes the statement's entry with
+`current_owner` first, `check_expr` records the callee for the statement being checked where it writes
+the binding on the call, and no entry ever loses a callee or changes its owner. -/
+theorem resolve_ownOk (q : Block) : C03.ownOkB (Resolve.resolve q).root (Resolve.resolve q).facts = true :=
+  ResolveFacts.resolveWith_ownOk true q
+
+/-- **Every direct callee the resolver model records is a function id** (below `functions.length`):
+callees come from signatures in scope, signatures from `predeclare`. -/
+theorem resolve_calleesInRange (q : Block) : calleesInRange (Resolve.resolve q).facts = true :=
+  ResolveFacts.resolveWith_calleesInRange true q
+
+theorem resolve_brClosed (q : Block) :
+    (Analysis.mkCtx (Resolve.resolve q).root (Resolve.resolve q).facts).brClosed = true :=
+  brClosed_of_calleesInRange _ _ (resolve_calleesInRange q)
+
+/-- **`FactsCoverCalls` holds of the output of the resolver model**, whatever the input program. -/
+theorem resolve_factsCoverCalls (q : Block) :
+    FactsCoverCalls (Resolve.resolve q).root (Resolve.resolve q).facts := ⟨resolve_ownOk q, resolve_brClosed q⟩
+
+/-- The facts `Pipeline.frontEnd` hands on are the resolver's. -/
+theorem frontEnd_facts {caps : Limits.Caps} {src : Bytes} {a : Pipeline.Accepted}
+    (h : Pipeline.frontEnd caps src = .ok a) :
+    a.root = (Resolve.resolve (parsed src)).root ∧ a.facts = (Resolve.resolve (parsed src)).facts := by
+  unfold Pipeline.frontEnd at h
+  simp only at h
+  split at h
+  · cases h
+  · split at h
+    · cases h
+    · split at h <;> (cases h; exact ⟨rfl, rfl⟩)
+
+/-- **C06 for accepted programs run with the plan of the analysis model** — no hypothesis on the plan
+or on the facts. -/
+theorem c06_accepted_model_plan (numOk : Bytes → Bool) (hnum : NumLitsParse N numOk) (cfg : RunCfg)
+    (hp : cfg.panics = false) (hl : CurrentLookup cfg) (q : Block) (hacc : Accepted q)
+    (hsrc : SourceOK numOk q) (fuel : Nat) :
+    (run { cfg with plan := modelPlan (Resolve.resolve q).root (Resolve.resolve q).facts } fuel
+      (Resolve.resolve q).root : Outcome N).isPanic = false :=
+  c06_accepted_analysis numOk hnum cfg hp hl q hacc (resolve_factsCoverCalls q) hsrc fuel
+
+/-- **C06 for the shipped pipeline, unconditionally**: whatever the source text, if
+`Pipeline.runSource` (lex → parse → resolve → analyses → run with the analyses' plan) gets as far as
+running it, the run does not panic — for every limit configuration, fuel, host configuration of the
+current code (`cfg.panics = false`: the fixed evaluator sites; `CurrentLookup`: the lookup after the
+fix of D-04) and every number type whose `ofLit` accepts the lexemes `digits` / `digits.digits`
+(`NumLitsParse`, what `str::parse::<f64>` does). -/
+theorem c06_pipeline_unconditional (hnum : NumLitsParse N isNumLexeme) (caps : Limits.Caps) (cfg : RunCfg)
+    (hp : cfg.panics = false) (hl : CurrentLookup cfg) (fuel : Nat) (src : Bytes)
+    (w : List Diag) (o : Outcome N) (h : Pipeline.runSource caps cfg fuel src = .ran w o) : o.isPanic = false := by
+  refine c06_pipeline_reach hnum caps cfg hp hl fuel src (fun a ha => ?_) w o h
+  obtain ⟨hroot, hfacts⟩ := frontEnd_facts ha
+  rw [hroot, hfacts]
+  exact resolve_factsCoverCalls _
+
 /-! ### Why the two assumptions and the one on the plan are needed -/
 
 private def sp : Span := ⟨0, 0⟩
@@ -670,6 +751,49 @@ example (fuel : Nat) :
     (@run Unit trivialNum Toy.cfg fuel (Resolve.resolve (parsed sampleText)).root).isPanic = false :=
   @c06_source Unit trivialNum (fun _ _ => rfl) Toy.cfg rfl (Or.inl rfl) sampleText (by decide +kernel)
     (planReach_none _ rfl _) fuel
+
+/-- Limits nothing trips on. -/
+def roomyCaps : Limits.Caps :=
+  { maxFunctions := 1000, maxLocals := 1000, maxScopes := 1000, maxStatements := 1000, maxTotalOps := 100000,
+    maxOpsPerFunction := 100000, maxTotalBlocks := 100000, maxBlocksPerFunction := 100000,
+    maxDirectUserCalls := 1000, maxSummaryEvents := 100000, maxLivenessEvents := 100000 }
+
+/-- What a run of the pipeline with the toy numbers shows: number of warnings, printed texts, ending. -/
+def ranSummary : Pipeline.Result Int → Option (Nat × List Bytes × Nat)
+  | .ran w o => some (w.length, Toy.summary o)
+  | _ => none
+
+/-- `c06_pipeline_unconditional` is about runs that really prune: the shipped pipeline on the TEXT of
+`keptBlock_too_strong` (`leaf` = function 2 is unused, the definition of `mk` unreachable: two warnings) hands the runtime a
+plan that removes function 2, and the run with the toy numbers prints `2` and ends normally. -/
+example :
+    (Pipeline.frontEnd roomyCaps hoistedDeadDefText).toOption.map
+        (fun a => (a.plan.map (·.fns), decide (FactsCoverCalls a.root a.facts))) = some (some [2], true) ∧
+    ranSummary (Pipeline.runSource roomyCaps Toy.cfg 30 hoistedDeadDefText) = some (2, [b!"2"], 0) := by
+  decide +kernel
+
+/-- An instance of `c06_pipeline_unconditional` on that text: no hypothesis about it is left. -/
+example (fuel : Nat) (w : List Diag) (o : Outcome Unit)
+    (h : @Pipeline.runSource Unit trivialNum roomyCaps Toy.cfg fuel hoistedDeadDefText = .ran w o) :
+    o.isPanic = false :=
+  @c06_pipeline_unconditional Unit trivialNum (fun _ _ => rfl) roomyCaps Toy.cfg rfl (Or.inl rfl) fuel
+    hoistedDeadDefText w o h
+
+/-- … and the hypothesis `h` is satisfiable: the pipeline does run that text. -/
+example : ∃ w o, @Pipeline.runSource Unit trivialNum roomyCaps Toy.cfg 30 hoistedDeadDefText = .ran w o := by
+  unfold Pipeline.runSource
+  cases h : Pipeline.frontEnd roomyCaps hoistedDeadDefText with
+  | ok a => exact ⟨_, _, rfl⟩
+  | error e =>
+    have : (Pipeline.frontEnd roomyCaps hoistedDeadDefText).toOption.isSome = true := by decide +kernel
+    rw [h] at this; cases this
+
+/-- The resolver's facts cover the calls of REJECTED programs too (`resolve_factsCoverCalls` has no
+hypothesis): a call with the wrong number of arguments is still recorded. -/
+example : ¬ Accepted (parsed (b!"do f(a) start return a end\nshout(f())")) ∧
+    FactsCoverCalls (Resolve.resolve (parsed (b!"do f(a) start return a end\nshout(f())"))).root
+      (Resolve.resolve (parsed (b!"do f(a) start return a end\nshout(f())"))).facts := by
+  decide +kernel
 
 /-- Acceptance matters: `comot` outside a loop is rejected; run nevertheless it leaves a function
 body and panics at `flowEscape`. -/
